@@ -127,8 +127,9 @@ def reuse_part(run):
                     # results handed out by earlier calls stay what they were
                     for (cj, res_j, snap_j) in earlier:
                         if not all(_same(np, g, w) for g, w in zip(res_j, snap_j)):
-                            run.violation("%s: the result returned by call %d (%s) was modified by call %d (%s)" % (name, cj + 1, hist[cj], ci + 1, c),
-                                          {"solver": name, "hist": hist}, {"solver": name, "part": "reuse-alias", "call": c[0]})
+                            # whether a returned array may be a view of a buffer the object reuses is outside the property
+                            run.deviation("OdeReuse (aliasing)", "%s: the result returned by call %d (%s) was modified by call %d (%s)" % (name, cj + 1, hist[cj], ci + 1, c),
+                                          {"solver": name, "hist": hist})
                             earlier = []
                             break
                     earlier.append((ci, got, [np.array(g, copy=True) for g in got]))
